@@ -1,20 +1,39 @@
 (* C05 - Deferred entity deletion is applied at the next process(), safely.
    Statement file: theorems only, each closed by [exact]. *)
 From Coq Require Import ZArith List Bool Permutation.
-From Desper Require Import Lib.Alist World.LLib World.LModel World.LC05 World.LC05Proofs.
+From Desper Require Import Lib.Alist World.LLib World.LModel World.LC05 World.LC05Proofs
+                           World.LRModel World.LR05 World.LR05Proofs.
 Import ListNotations.
 Open Scope Z_scope.
 
-(* Every history (any length, any classes, entities, instances, toggles) whose
-   observations the model of World accepts satisfies the property machine of
-   World/LC05.v: the two-step visibility of delete_entity, removal and
-   notification at the start of the next process() before the processor,
-   process() total unless a deletion was requested for an entity that owned
-   nothing, and every failing frame consuming the mark that caused it. *)
+(* Every history whose observations the model of World accepts satisfies the
+   property.  A case is either (Old) a history of atomic operations - callbacks
+   that only log, any classes, Clear and Probe included - judged by the machine
+   of World/LC05.v, or (Re) a history whose on_add / on_remove callbacks run
+   scripts of World operations (delete_entity immediate / deferred,
+   remove_component, add_component, create_entity, on any entity, nested to any
+   depth the log shows, also while process() drains the marks and while
+   postponed notifications are released), judged by the log-driven machine of
+   World/LR05.v.  In both: the two-step visibility of delete_entity, removal
+   and notification at the start of the next process() before the processor,
+   process() raising only on a mark put on an entity that owned nothing - whatever
+   was done to a marked entity in between, by the caller or by a callback - and
+   every failing frame consuming the mark that caused it.  No bound on the
+   length of the history, of a log, of the nesting, on entities or classes. *)
 Theorem C05_deferred_delete :
+  forall c : C05x_case, xwf_b c = true -> xknown_b c = false -> xaccepts c = true -> xholds c.
+Proof. intros c _ _. exact (xaccepts_xholds c). Qed.
+Print Assumptions C05_deferred_delete.
+
+(* the two halves separately *)
+Theorem C05_deferred_delete_atomic :
   forall c : C05_case, wf_b c = true -> known_b c = false -> accepts c = true -> holds c.
 Proof. intros c _ _. exact (accepts_holds c). Qed.
-Print Assumptions C05_deferred_delete.
+Print Assumptions C05_deferred_delete_atomic.
+Theorem C05_deferred_delete_reentrant :
+  forall c : LR_case, rwf_b c = true -> raccepts c = true -> rholds_b c = true.
+Proof. intros c _. exact (raccepts_rholds c). Qed.
+Print Assumptions C05_deferred_delete_reentrant.
 
 (* Readings of [holds] on raw observations (s, s' are states of the property
    machine, which only records who owns what and which entities are marked). *)
@@ -76,7 +95,7 @@ Definition ex_ok : C05_case :=
       (Process, mkobs (Some 9) 1 [5] [mkcb CRem 2 5 true] [QComps 5 []; QIsH 2 false]);
       (Process, mkobs None 0 [] [mkcb CProc 0 0 true] [QExists 5 false; QEntities []]);
       (Create (Some 5) [1], mkobs (Some 5) 0 [] [mkcb CAdd 1 5 true] [QExists 5 true; QEntities [5]]) ] |}.
-Example C05_nonvacuous : wf_b ex_ok = true /\ known_b ex_ok = false /\ accepts ex_ok = true.
+Example C05_nonvacuous_atomic : wf_b ex_ok = true /\ known_b ex_ok = false /\ accepts ex_ok = true.
 Proof. vm_compute. auto. Qed.
 
 (* violations are rejected by the property: the entity still exists right after
@@ -99,4 +118,34 @@ Example C05_processor_first_rejected :
     [ (Create (Some 5) [1], mkobs (Some 5) 0 [] [mkcb CAdd 1 5 true] []);
       (Delete 5 false, mkobs None 0 [] [] []);
       (Process, mkobs None 0 [] [mkcb CProc 0 0 true; mkcb CRem 1 5 true] []) ] |} = false.
+Proof. vm_compute. reflexivity. Qed.
+
+(* re-entrant: the on_remove of class 1 deletes entity 2 at once; both entities
+   are marked; the frame deletes 1, whose notification deletes 2 (whose own
+   notification tries again and gets the KeyError of a missing entity), and the
+   frame must then be over: the processor runs, nothing is raised *)
+Definition exr_p : params :=
+  {| p_cls := [(1, 1); (2, 1)];
+     p_kinds := [(1, {| k_h := true; k_add := false; k_rem := true; k_probe := false |})] |}.
+Definition exr_scr : scripts := [(1, ([], [Delete 2 true]))].
+Definition exr_prefix : list (op * robs) :=
+  [ (Create (Some 1) [1], mkrobs (Some 1) 0 [] [] [QExists 1 true]);
+    (Create (Some 2) [2], mkrobs (Some 2) 0 [] [] []);
+    (Delete 1 false, mkrobs None 0 [] [] [QExists 1 false; QComps 1 [1]]);
+    (Delete 2 false, mkrobs None 0 [] [] [QEntities []]) ].
+Definition exr_drain : list lent :=
+  [ LCall CRem 1 1 true; LAct (Delete 2 true);
+      LCall CRem 2 2 true; LAct (Delete 2 true); LRet None 1; LEnd;
+    LRet None 0; LEnd ].
+Definition exr_ok : C05x_case :=
+  Re {| r_p := exr_p; r_scr := exr_scr; r_tr := exr_prefix ++
+    [ (Process, mkrobs None 0 [] (exr_drain ++ [LProc]) [QExists 1 false; QExists 2 false; QComps 2 []]);
+      (Create (Some 2) [2], mkrobs (Some 2) 0 [] [] [QExists 2 true]) ] |}.
+Example C05_nonvacuous : xwf_b exr_ok = true /\ xknown_b exr_ok = false /\ xaccepts exr_ok = true.
+Proof. vm_compute. auto. Qed.
+(* an implementation that walks a snapshot of the marks reaches entity 2 again
+   and raises: rejected by the property (2 existed when it was marked) *)
+Example C05_snapshot_drain_rejected :
+  xholds_b (Re {| r_p := exr_p; r_scr := exr_scr; r_tr := exr_prefix ++
+    [ (Process, mkrobs (Some 2) 1 [] exr_drain []) ] |}) = false.
 Proof. vm_compute. reflexivity. Qed.
